@@ -168,13 +168,14 @@ CLAIMED = {
         'text': 'PARTIAL.  Deductive proof (Verus) on the verbatim bodies of next_solution, next_solution_and, next_solution_or (ghost node heap, rule R15) of the structural facts the search order rests on: clauses are fetched in index order, each at most once; '
                 'a clause body runs under the unifier of its head with the goal; the rest of a conjunction runs under the first goal\'s answer; the later alternatives of a disjunction are the remaining operands and run under the bindings the disjunction was entered with '
                 '(substitution sets are immutable values, so bindings of an abandoned alternative cannot reach a later answer). '
-                'Three invariants of the whole search are proved as overlays on the same bodies (units solver_ext, solver_ids, solver_wf; solve / solve_all included): no binding is ever lost - every answer of a node extends the bindings the node was made with, and those never change; '
+                'SOUNDNESS with respect to resolution is proved (unit solver_sld): every answer a solution node gives is a computed answer of its goal by SLD resolution - the semantics given as inference rules (clause copy + unification, conjunction, disjunction, built-ins as functions; not(G) and the cut count as true, they only remove answers). '
+                'Further invariants of the whole search are proved as overlays on the same bodies (units solver_ext, solver_ids, solver_wf, solver_kb; solve / solve_all included): no binding is ever lost - every answer of a node extends the bindings the node was made with, and those never change; '
                 'every variable id in the search state and in every answer is within the id counter, so renamed clause copies are fresh for the search (C10); every set of bindings is well formed and acyclic, so unify, the built-ins and print are called within their preconditions (C08). '
-                'The statement itself - the answer sequence equals that of depth-first, left-to-right, clause-order resolution, in order and multiplicity, up to renaming - is a whole-history equivalence and is checked BOUNDED only: '
+                'The other direction of the statement - every answer of depth-first, left-to-right, clause-order resolution is produced, in that order and multiplicity, up to renaming - is a whole-history statement and is checked BOUNDED only: '
                 '3000 random stratified programs per seed against a reference interpreter (c01_prog), and solve_all() formatting on 1500 more (c01_solve_all).',
-        'note': 'Only the per-node clauses and the three search invariants are proved; the equivalence is bounded. Trusted: heap model (T8), R15 (T4). unify / get_rule are seen through their own contracts (C06, C10 are their own properties); assumed: the stored rules are well formed, the built-ins\' preconditions on the shape of their arguments. format_solution is proved (unit print) to write `$Var = value` per query variable in argument order, under the precondition that result and query have the same arity.',
+        'note': 'Proved: soundness, the per-node clauses and the search invariants; completeness and order are bounded. Trusted: heap model (T8), R15 (T4). unify / get_rule are seen through their own contracts (C06, C10 are their own properties); assumed: the stored rules are well formed, the built-ins\' preconditions on the shape of their arguments. format_solution is proved (unit print) to write `$Var = value` per query variable in argument order, under the precondition that result and query have the same arity.',
         'technique': 'contract-based deductive verification (Verus) of extracted real code (per-node clauses; three invariants of the search over a ghost heap model) + bounded differential comparison with a reference interpreter on random programs',
-        'design_ref': 'DESIGN.md 8.27, 8.36-8.38',
+        'design_ref': 'DESIGN.md 8.27, 8.36-8.41',
     },
     'C11': {
         'text': 'PARTIAL.  Deductive proof (Verus, unit rename, shared with C10) that every use of a clause is a renamed copy with one fresh variable id per name across head and body, sharing no id with any other use or with the query: the search works on ids, never on names. '
